@@ -17,6 +17,11 @@ class NArr:
     """1-D numpy array: n (int or z3 Int), elem(i) -> value (python number / Sym / Opaque), dtype tag."""
 
     def __init__(self, n, elem, dtype="float", tag=""):
+        if isinstance(n, Sym):
+            n = n.e
+        if isinstance(n, z3.ExprRef):
+            sn = smt.simp(n)
+            n = sn.as_long() if z3.is_int_value(sn) else sn
         self.n = n
         self.elem = elem
         self.dtype = dtype
@@ -104,7 +109,15 @@ def arr_binop(I, ctx, op, a, b):
             return B.wrap(xr / yr)
         return I.binop(ctx, op, x, y)
     n, elem = lift(I, ctx, f, a, b)
-    return NArr(n, elem, dt, _BIN.get(type(op), "?"))
+    r = NArr(n, elem, dt, _BIN.get(type(op), "?"))
+    # element-wise operations commute with a boolean-mask selection
+    ms = [getattr(x, "masked_from", None) for x in (a, b) if isinstance(x, NArr)]
+    if ms and all(m is not None for m in ms) and all(m[1] is ms[0][1] for m in ms):
+        ba = a.masked_from[0] if isinstance(a, NArr) else a
+        bb = b.masked_from[0] if isinstance(b, NArr) else b
+        bn, belem = lift(I, ctx, f, ba, bb)
+        r.masked_from = (NArr(bn, belem, dt, "base-op"), ms[0][1])
+    return r
 
 
 def arr_compare(I, ctx, op, a, b):
@@ -307,6 +320,39 @@ def install(I):
     def _empty(ctx, n, dtype=None):
         junk = z3.Function(ctx.fresh_name("uninit"), z3.IntSort(), z3.RealSort())
         return NArr(n if isinstance(n, int) else B.zint(n), lambda i: Sym(junk(B._z(i))), dtype_tag(I, dtype) or "float", "empty")
+    @ext("bincount")
+    def _bincount(ctx, x, weights=None, minlength=0):
+        return bincount(I, ctx, x, weights, minlength)
+
+    @ext("where")
+    def _where(ctx, c, a, b):
+        ctx.assumed_ext.add("numpy.where(c, a, b): element-wise choice with scalar broadcasting")
+        arrs = [v for v in (c, a, b) if isinstance(v, NArr)]
+        if not arrs:
+            raise Unsupported("numpy.where on scalars")
+        n = arrs[0].n
+        g = lambda v, i: v.elem(i) if isinstance(v, NArr) else v
+        dt = next((v.dtype for v in (a, b) if isinstance(v, NArr)), "float")
+        return NArr(n, lambda i: B.ite_val(B.zbool(g(c, i)) if not isinstance(g(c, i), bool) else g(c, i), (lambda: g(a, i)), (lambda: g(b, i))), dt, "where")
+
+    @ext("max")
+    def _max(ctx, a):
+        ctx.assumed_ext.add("numpy.max(a): an element of a that is >= every element (a non-empty)")
+        a = as_narr(I, ctx, a)
+        m = ctx.fresh_int("npmax") if a.dtype in ("int", "uint8") else ctx.fresh_real("npmax")
+        i = z3.Int("i_max")
+        conv = B.zint if a.dtype in ("int", "uint8") else B.zreal
+        if ctx.branch(zn(a) <= 0):
+            raise I.raise_exc("ValueError")
+        ctx.assume(z3.ForAll([i], z3.Implies(z3.And(i >= 0, i < zn(a)), conv(a.elem(i)) <= m)))
+        w = ctx.fresh_int("maxwit")
+        ctx.assume(z3.And(w >= 0, w < zn(a), conv(a.elem(w)) == m))
+        return Sym(m)
+
+    @ext("empty_like")
+    def _empty_like(ctx, a):
+        return np_tab["empty"].fn(ctx, B.wrap(zn(a)), DType(a.dtype))
+
     @ext("arange")
     def _arange(ctx, n, dtype=None):
         return NArr(n if isinstance(n, int) else B.zint(n), lambda i: B.wrap(B._z(i)), dtype_tag(I, dtype) or "int", "arange")
@@ -318,6 +364,51 @@ def install(I):
 
     # core hooks: binop / compare / getattr / len / isinstance / getitem on NArr
     I.narr_hooks = True
+
+
+class BinSum(NArr):
+    """numpy.bincount(ids, weights, minlength): element g = sum of weights[i] over i with ids[i] == g (a reduction node:
+    two such arrays are equal when their lengths, ids and weights agree pointwise -- never expanded for the solver)."""
+
+    def __init__(self, ctx, length, ids, weights, n_in):
+        term = z3.Function(ctx.fresh_name("BINSUM"), z3.IntSort(), z3.RealSort())
+        super().__init__(length, lambda g: Sym(term(B._z(g))), "float", "bincount")
+        self.ids, self.weights, self.n_in, self.term = ids, weights, n_in, term
+
+
+def bincount(I, ctx, x, weights=None, minlength=0):
+    ctx.assumed_ext.add("numpy.bincount(x, weights, minlength): result[g] = sum of weights over i with x[i] == g (count without weights); "
+                        "length = max(minlength, max(x)+1); a sum over a boolean-mask selection equals the masked sum")
+    x = as_narr(I, ctx, x)
+    w = as_narr(I, ctx, weights) if weights is not None else None
+    base_x, mask_x = getattr(x, "masked_from", (x, None))
+    if w is not None:
+        base_w, mask_w = getattr(w, "masked_from", (w, None))
+        if (mask_x is None) != (mask_w is None) or (mask_x is not None and mask_x is not mask_w):
+            raise Unsupported("bincount over differently filtered ids and weights")
+    else:
+        base_w = None
+    n_in = base_x.n
+
+    def ids(i):
+        return base_x.elem(i)
+
+    def wts(i):
+        v = base_w.elem(i) if base_w is not None else 1
+        if mask_x is None:
+            return v
+        return B.ite_val(B.zbool(mask_x.elem(i)), (lambda: v), (lambda: 0))
+    # length: max(minlength, max over SELECTED ids + 1)
+    ln = ctx.fresh_int("bclen")
+    ml = B._z(minlength) if not isinstance(minlength, int) else z3.IntVal(minlength)
+    i = z3.Int("i_bc")
+    sel = (lambda idx: z3.BoolVal(True)) if mask_x is None else (lambda idx: B.zbool(mask_x.elem(idx)))
+    ctx.assume(ln >= ml)
+    ctx.assume(z3.ForAll([i], z3.Implies(z3.And(i >= 0, i < B._z(n_in), sel(i)), B.zint(ids(i)) < ln)))
+    j = ctx.fresh_int("bcwit")
+    ctx.assume(z3.Or(ln == ml, z3.And(j >= 0, j < B._z(n_in), sel(j), B.zint(ids(j)) + 1 == ln)))
+    ctx.assume(ln >= 0)
+    return BinSum(ctx, ln, ids, wts, n_in)
 
 
 def mask_filter(I, ctx, a, mask):
@@ -339,7 +430,18 @@ def mask_filter(I, ctx, a, mask):
         return a.elem(smt.simp(sj))
     r = NArr(cnt, elem, a.dtype, "masked")
     r.mask_all = (lambda idx: z3.Implies(cnt == n, B.zbool(mask.elem(idx))))
+    r.masked_from = (a, mask)
     return r
+
+
+def narr_setitem(I, ctx, a, k, v):
+    """a[k] = v for an integer (possibly symbolic) index: in place, aliases see it"""
+    if isinstance(k, NArr):
+        raise Unsupported("array-indexed assignment needs a contract")
+    i = B.norm_index(I, ctx, k, a.n)
+    iz = B._z(i)
+    old = a.elem
+    a.elem = (lambda j, old=old, iz=iz, v=v: B.ite_val(B._z(j) == iz, (lambda: v), (lambda: old(j))))
 
 
 def narr_getitem(I, ctx, a, k):
